@@ -36,7 +36,11 @@ func checkTableEncoder(c *checkCtx, n int) {
 			if len(pool) > 0 && c.rng.chance(1, 3) {
 				row = append([]int{}, pick(c.rng, pool)...)
 				if c.rng.chance(1, 4) && len(row) > 0 {
-					row[c.rng.intn(len(row))] += pick(c.rng, []int{128, 256, -128, 1})
+					k := c.rng.intn(len(row))
+					row[k] += pick(c.rng, []int{128, 256, -128, 1})
+					if row[k] > 2147483647 || row[k] < -2147483648 {
+						row[k] = 0
+					}
 				}
 			} else {
 				l := c.rng.intn(7)
